@@ -130,8 +130,24 @@ pub fn machines(opts: &Opts) -> Vec<MCfg> {
             m.flag_kinds = vec![0, 1, 2, 3];
             m.touch_leaves = true;
             out.push(m);
+            // a result detached (or re-tracked) between its construction and its use, then two passes:
+            // the first must leave nothing that the second picks up (seeded change C18-r9m1)
+            let two: Vec<LeafSpec> = same_shape_leaves(var).into_iter().take(2).collect();
+            let mut m = base_cfg("N2F1P2/detached-intermediate", two, vec![OpK::Mul], 4);
+            m.bounds = Bounds { builds: 2, passes: 2, flags: 1, depth: 5, ..Bounds::default() };
+            m.seeds = vec![0];
+            m.flag_kinds = vec![1, 2, 3];
+            out.push(m);
         }
         Tier::Thorough => {
+            {
+                let two: Vec<LeafSpec> = same_shape_leaves(var).into_iter().take(2).collect();
+                let mut m = base_cfg("N2F1P3C1/detached-intermediate", two, vec![OpK::Mul, OpK::Add], 5);
+                m.bounds = Bounds { builds: 2, passes: 3, flags: 1, clears: 1, depth: 7, ..Bounds::default() };
+                m.seeds = vec![0];
+                m.flag_kinds = vec![1, 2, 3];
+                out.push(m);
+            }
             // closures that own forward-time data, three passes, products and softmax too
             let small = vec![
                 LeafSpec { dims: vec![2], vals: vec![0.5 + 0.25 * var as f64, -1.0], tracked: true },
